@@ -84,7 +84,7 @@ func ghostComps(name string) []comp {
 	case "sync.Mutex", "sync.RWMutex":
 		return []comp{{".$held", SBool}}
 	case "time.Time":
-		return []comp{{".$ns", SInt}} // abstract instant (mathematical integer of nanoseconds)
+		return []comp{{".$ns", BV(64)}} // abstract instant: signed nanoseconds since an arbitrary epoch (no wrap-around assumed)
 	}
 	return nil
 }
@@ -228,7 +228,10 @@ func flatten(t types.Type, v Value) []*Term {
 	case *types.Signature:
 		f := v.(*FuncV)
 		if f.Opq == nil {
-			panic(unsupported("storing a non-opaque closure into memory"))
+			if f.Fn != nil && len(f.Bind) == 0 {
+				return []*Term{funcID(f.Fn)}
+			}
+			panic(unsupported("storing a closure with captured variables into memory"))
 		}
 		return []*Term{f.Opq}
 	case *types.Slice:
@@ -619,4 +622,18 @@ func describeValue(v Value) string {
 		return "(" + strings.Join(s, ",") + ")"
 	}
 	return fmt.Sprintf("%T", v)
+}
+
+// plain functions (no captured variables) stored in memory are represented by a constant identifier
+var funcIDs = map[interface{}]int64{}
+var funcByID = map[int64]interface{}{}
+
+func funcID(fn interface{}) *Term {
+	id, ok := funcIDs[fn]
+	if !ok {
+		id = int64(1000000 + len(funcIDs))
+		funcIDs[fn] = id
+		funcByID[id] = fn
+	}
+	return IntConst(id)
 }
